@@ -26,6 +26,8 @@ structure NodeRec (S : Type) where
   /-- buffer of the array the node was created with (closures of `exp`/`sigmoid` cache it) -/
   selfBuf : Nat
   label : String
+  /-- dimensions of the array the node was created with -/
+  dims : List Nat := []
 
 inductive Act where
   | none | relu | sigmoid | softmax
@@ -90,7 +92,7 @@ def State.alloc (σ : State S) (t : Tensor S) (kids : List Handle) (tag : Option
   let b := σ.bufs.size
   let n := σ.nodes.size
   let rec' : NodeRec S :=
-    if attach then ⟨kids, tag, b, label⟩ else ⟨[], none, b, label⟩
+    if attach then ⟨kids, tag, b, label, t.dims⟩ else ⟨[], none, b, label, t.dims⟩
   ({ σ with bufs := σ.bufs.push t.vals, nodes := σ.nodes.push rec',
             cnt := σ.cnt.push 0, delta := σ.delta.push none, grad := σ.grad.push none },
    ⟨t.dims, b, n, attach, attach⟩)
@@ -99,7 +101,7 @@ def State.alloc (σ : State S) (t : Tensor S) (kids : List Handle) (tag : Option
 def State.allocView (σ : State S) (dims : List Nat) (buf : Nat) (kids : List Handle)
     (tag : Option (OpTag S)) (attach : Bool) : State S × Handle :=
   let n := σ.nodes.size
-  let rec' : NodeRec S := if attach then ⟨kids, tag, buf, ""⟩ else ⟨[], none, buf, ""⟩
+  let rec' : NodeRec S := if attach then ⟨kids, tag, buf, "", dims⟩ else ⟨[], none, buf, "", dims⟩
   ({ σ with nodes := σ.nodes.push rec', cnt := σ.cnt.push 0, delta := σ.delta.push none,
             grad := σ.grad.push none },
    ⟨dims, buf, n, attach, attach⟩)
